@@ -324,6 +324,11 @@ class WSStream:
 
     async def _handle_events(self) -> None:
         for event in self.connection.events():
+            if self.closed:
+                # Closed whilst handling an earlier event (e.g. a pong
+                # that could not be written), the app has been told so
+                # nothing more is delivered to it.
+                break
             if isinstance(event, Message):
                 if self.connection.state == ConnectionState.LOCAL_CLOSING:
                     # A close has been sent (e.g. as a message was too
